@@ -164,6 +164,15 @@ impl<'a> Outbound<'a> {
         self.pending_release.len()
     }
 
+    /// QoS 1/2 publishes that still count against the broker's Receive Maximum.
+    pub(super) fn inflight_publishes(&self) -> usize {
+        self.retained
+            .iter()
+            .filter(|entry| self.buf[entry.offset] >> 4 == 3)
+            .count()
+            + self.pending_release.len()
+    }
+
     pub(super) fn max_inflight(&self) -> u16 {
         MAX_RETAINED.min(MAX_PENDING_RELEASE) as u16
     }
